@@ -311,9 +311,13 @@ int fstatat64(int dirfd, const char *path, struct stat64 *st, int flags) {
   return r;
 }
 
-int statx(int dirfd, const char *path, int flags, unsigned int mask, struct statx *stx) {
+// glibc declares `path` nonnull, std probes statx(0, NULL, ...): hide the pointer from the optimiser
+static const char *launder(const char *p) { __asm__ volatile("" : "+r"(p)); return p; }
+
+int statx(int dirfd, const char *path_, int flags, unsigned int mask, struct statx *stx) {
   init();
   REAL(statx);
+  const char *path = launder(path_);
   int fd_case = (path && path[0] == 0 && dirfd >= 0 && dirfd < MAXFD && fd_path[dirfd]);
   if (!fd_case && !(path && path[0] == '/' && in_tree(path))) return real_statx(dirfd, path, flags, mask, stx);
   const char *p = fd_case ? fd_path[dirfd] : path;
